@@ -111,6 +111,39 @@ func c14(r *engine.Report, p *engine.Program) {
 				_ = parts
 			}
 		}
+		// every I/O step of the three status-file primitives reports its failure: an update that could
+		// not be read back, positioned, truncated or written must not look like a successful update
+		{
+			nIO := 0
+			for _, n := range []string{"(*workceptor.StatusFileData).Save", "(*workceptor.StatusFileData).Load", "(*workceptor.StatusFileData).UpdateFullStatus",
+				"(*workceptor.StatusFileData).saveToFile", "(*workceptor.StatusFileData).loadFromFile"} {
+				fn := p.Func(n)
+				if fn == nil {
+					continue
+				}
+				for _, ci := range engine.CallsIn(fn) {
+					call, isCall := ci.(*ssa.Call)
+					if !isCall {
+						continue // deferred Close etc.
+					}
+					o := engine.CalleeObj(call.Common())
+					if o == nil || errIndex(call.Common().Signature()) < 0 {
+						continue
+					}
+					switch o.Name() {
+					case "OpenFile", "Open", "Seek", "Truncate", "Write", "Read", "ReadAll", "Marshal", "Unmarshal", "lockStatusFile", "loadFromFile", "saveToFile", "Sync":
+					default:
+						continue
+					}
+					nIO++
+					okp, why := errorPropagates(fn, call)
+					r.Check("R3-read-modify-write", fmt.Sprintf("%s: failure of %s#%d is reported", engine.FuncName(fn), o.Name(), ordinalOfCall(call)), call.Pos(), okp, why, why+" — a status update that failed half-way is reported as done")
+				}
+			}
+			if nIO < 10 {
+				r.Broken("status-file I/O steps: only %d found, expected at least 10", nIO)
+			}
+		}
 		// the lock's identity is the inode of <status>.lock: nobody removes, renames or recreates that path
 		{
 			var bad []string
